@@ -143,6 +143,8 @@ class EngineC13:
                 "m": sw.choice([None, 3]),
                 "user_callback": sw.random() < 0.3,
                 "factr": sw.choice([1e7, 1e10]),
+                "maxls": sw.choice([None, None, 1, 2, 3, 20]),
+                "maxfun": sw.choice([None, None, 3, 8]),
             }
             n_solves = sw.randint(2, 4)
             same_size = sw.random() < 0.5
@@ -282,6 +284,9 @@ class EngineC13:
             kw = {"maxiter": spec["maxiter"], "factr": spec["factr"], "iprint": -1}
             if spec.get("m"):
                 kw["m"] = spec["m"]
+            for opt in ("maxls", "maxfun"):
+                if spec.get(opt) is not None:
+                    kw[opt] = spec[opt]
             if user_cb is not None:
                 kw["callback"] = user_cb
             return cls(**kw)
